@@ -104,3 +104,59 @@ package hessian
 //@   ensures [C10,C01:date-compact-form] fits && tag == 0x4b ==> result0.nsec == 0 && result0.sec == int64(int32(be32(@in, body)))
 //@   ensures [C03:date-compact-2.0]      fits && tag == 0x4b ==> result0.nsec == 0 && result0.sec == int64(int32(be32(@in, body))) * 60
 //@   ensures [C14,C03:date-reject]       !fits ==> err != nil
+
+// ---------------------------------------------------------------- pool.go (C17, C12)
+
+//@ func newPool
+//@   requires size >= 0
+//@   ensures [C17:pool-capacity]  chcap(payload(result).cached) == size && chlen(payload(result).cached) == 0
+//@   ensures [C17:pool-factory]   payload(result).factory == f
+//@   ensures [C17,C12:pool-fresh] fresh(payload(result)) && fresh(payload(result).cached)
+
+//@ func (*objectPool).Get
+//@   noloops
+//@   callsonly dynamic
+//@   assigns @dyncalls, @lastdyn
+//@   ensures [C17:get-one-receive]      recvs(p.cached) <= 1 && sends(p.cached) == 0 && dyncalls() <= 1
+//@   ensures [C17:get-returns-received] recvs(p.cached) == 1 ==> result == lastrecv(p.cached) && dyncalls() == 0 && chlen(p.cached) == old(chlen(p.cached)) - 1
+//@   ensures [C17:get-fresh-when-empty] recvs(p.cached) == 0 ==> old(chlen(p.cached)) == 0 && dyncalls() == 1 && result == lastdyn() && chlen(p.cached) == 0
+
+//@ func (*objectPool).Return
+//@   noloops
+//@   callsonly nothing
+//@   assigns nothing
+//@   ensures [C17:return-one-send]       sends(p.cached) <= 1 && recvs(p.cached) == 0
+//@   ensures [C17:return-sends-arg]      sends(p.cached) == 1 ==> lastsent(p.cached) == o && chlen(p.cached) == old(chlen(p.cached)) + 1
+//@   ensures [C17:return-drop-when-full] sends(p.cached) == 0 ==> old(chlen(p.cached)) == chcap(p.cached) && chlen(p.cached) == old(chlen(p.cached))
+//@   ensures [C17:return-bounded]        chlen(p.cached) <= chcap(p.cached)
+
+//@ func NewEncoderPool$1
+//@   ensures [C17,C12:factory-fresh-encoder] fresh(payload(result))
+
+//@ func NewDecoderPool$1
+//@   ensures [C17,C12:factory-fresh-decoder] fresh(payload(result))
+
+//@ func NewSerializerPool$1
+//@   ensures [C17,C12:factory-fresh-serializer] fresh(payload(result)) && fresh(payload(result).encoder) && fresh(payload(result).decoder)
+
+//@ func (*Encoder).Reset
+//@   covers e
+//@   config nameMap
+//@   assigns e.writer, e.clsDefList, e.refMap
+//@   ensures [C11:enc-reset-state] e.writer == w && len(e.clsDefList) == 0 && mapsize(e.refMap) == 0 && fresh(e.refMap)
+
+//@ func (*Decoder).Reset
+//@   covers d
+//@   config typMap
+//@   assigns d.reader, d.typList, d.clsDefList, d.refList
+//@   ensures [C11:dec-reset-state] d.reader == r && len(d.typList) == 0 && len(d.clsDefList) == 0 && len(d.refList) == 0
+
+// ---------------------------------------------------------------- package frame (C12 F1, C17 P4)
+
+//@ package
+//@   readonly hlog, _buildInTypeNameMap, StringChunkSizeBytes, _binaryChunkSizeBytes, strChunkSize, _binChunkSize
+//@   readonly _zeroValue, _zeroDate, _dateType, _refHolderType, _zeroBoolPinter
+//@   initonly init, addBuildInNameType, SetLogger
+//@   readonlyuse (*bytes.Buffer).Write, io.Writer.Write, github.com/vogo/logger.Logger.Debugf, builtin:len, builtin:cap
+//@   fieldwriters objectPool.cached newPool
+//@   fieldwriters objectPool.factory newPool
